@@ -18,7 +18,8 @@ import tempfile
 ROOT = os.path.dirname(os.path.dirname(os.path.abspath(__file__)))
 RT_PYTHON = os.environ.get('PYVC_RT_PYTHON', '/venv/bin/python')
 OUT_OF_REACH = 'approximate,clusters,treebandit'
-HAS_RT = {'C01', 'C02', 'C03', 'C04', 'C05', 'C06', 'C07', 'C08', 'C09', 'C10', 'C11', 'C12', 'C13', 'C14', 'C17', 'C18',
+BOUNDED_ONLY = {'C11', 'C12', 'C15', 'C16'}      # no contract within reach of the prover: decided by the bounded leg only
+HAS_RT = {'C15', 'C16', 'C01', 'C02', 'C03', 'C04', 'C05', 'C06', 'C07', 'C08', 'C09', 'C10', 'C11', 'C12', 'C13', 'C14', 'C17', 'C18',
           'C19', 'C20'}
 
 
@@ -121,6 +122,7 @@ def bounded_leg(eng, prop, tier, seed):
                'bound': 'enumerated small scopes: 3-5 arms, <= 12 rows per batch, <= 3 batches, integer grid contexts in '
                         '[-3,3]^2, the listed policy combinations, seed %d; wall budget %ds%s'
                         % (seed, budget, '' if res.get('exhausted', True) else ' (budget reached before the enumeration ended)'),
-               'cases': res.get('cases', 0), 'seconds': res.get('seconds'), 'failures': len(res.get('failures', [])),
+               'cases': res.get('cases', 0), 'distinct_cases': res.get('distinct_cases', 0),
+               'samples': res.get('samples', []), 'seconds': res.get('seconds'), 'failures': len(res.get('failures', [])),
                'label': 'bounded', 'cmd': res.get('cmd')}
     return summary, new, hits, res.get('error')
